@@ -177,6 +177,25 @@ impl<'ast> Visit<'ast> for Scan {
 
 pub struct HygFinding { pub rule: &'static str, pub inst: String, pub msg: String }
 
+/// the generic parameter list of a generated impl is the item's, as `split_for_impl` prints it (a list printed from the
+/// declaration keeps defaults - `impl<T = u8>` - which an impl header does not allow)
+pub fn impl_generics_findings(inst: &Instance) -> Vec<(String, String)> {
+    let mut out = Vec::new();
+    for im in find_impls(&inst.file) {
+        if im.trait_.is_none() { continue; }
+        let gtxt = quote::ToTokens::to_token_stream(&im.generics.params).to_string();
+        let g_ok = gtxt.contains("__G_item_generics") || gtxt.contains("__G_x_item_generics") || gtxt.contains("__G_source_generics") || gtxt.contains("__G_x_item_impl_generics") || gtxt.contains("__G_item_impl_generics");
+        if !g_ok { out.push((trait_path(im), format!("a generated impl of {} does not take its generic parameters from the item's generics as an impl header needs them (`impl_generics` of split_for_impl): `<{gtxt}>`", trait_path(im)))); }
+    }
+    out
+}
+/// every distinct instance must parse (for C16: tokens that do not parse make a later parse_quote! / parse2 of them panic)
+pub fn parse_report(cx: &Cx, prop: &str) -> Report {
+    let mut rep = cx.report(prop);
+    run_hyg(cx, &mut rep, &["TP-parse"]);
+    rep
+}
+
 /// TP-signature: the receiver of every generated trait method is the one the trait declares (E0053 / E0186 otherwise)
 pub fn signature_findings(inst: &Instance) -> Vec<(String, String)> {
     const OPS: [&str; 10] = ["add", "bitand", "bitor", "bitxor", "div", "mul", "rem", "shl", "shr", "sub"];
@@ -291,6 +310,7 @@ fn run_hyg(cx: &Cx, rep: &mut Report, rules: &[&str]) -> Vec<Collected> {
 
 pub fn c13(cx: &Cx) -> i32 {
     let mut rep = cx.report("C13");
+    crate::misc::span_hygiene_rule(cx, &mut rep);
     let coll = run_hyg(cx, &mut rep, &["TP-binders", "TP-binder-user-ident", "TP-abs-paths", "TP-method-syntax"]);
     // positive fixtures: the rules must fire on a violating instance (zero-count rules never pass vacuously)
     let fx: syn::File = syn::parse_str("impl<T> Eq for X<T> { fn f<H>(&self, other: &Self) { let o = Some(1); let _: for<'a> fn(&'a u8); } }").unwrap_or(syn::File { shebang: None, attrs: vec![], items: vec![] });
@@ -304,6 +324,9 @@ pub fn c13(cx: &Cx) -> i32 {
 
 pub fn c20(cx: &Cx) -> i32 {
     let mut rep = cx.report("C20");
+    // an attribute the expansion consumed but left on the item is expanded again: duplicate impls (E0119) in generated code (the C14 rule)
+    rep.import(&crate::props_entry::c14_report(cx), &["ES-strip-coverage", "DM-strip-set"]);
+    crate::misc::span_hygiene_rule(cx, &mut rep);
     // a used field type that mentions a parameter must be bounded by the trait, else the generated impl does not type-check
     // although derive_ex reported nothing (the C03 rules, as a necessary condition)
     crate::props_bounds::run_bounds(cx, &mut rep, &["ES-use-bound"]);
@@ -382,6 +405,9 @@ pub fn c12(cx: &Cx) -> i32 {
     use crate::cmp::*;
     use crate::refmodel::*;
     let mut rep = cx.report("C12");
+    // stacked `#[derive(..)]` attributes become stacked `#[derive_ex(..)]` attributes: every list must be read (the C15 rule)
+    rep.import(&crate::props_entry::c15_report(cx), &["DM-arg-merge"]);
+    crate::misc::span_hygiene_rule(cx, &mut rep);
     // DM-zero-state: without helper attributes every comparison model yields the default comparator, no ignore / reverse / error
     let traits: Vec<usize> = (0..5).collect();
     let ct = crate::props::cmp_models(cx, &mut rep, &traits, "", false);
